@@ -50,7 +50,7 @@ class Oracle(simcheck.BaseOracle):
             return
         mi, ui = self.index[key]
         line = run.out[-1][1] if run.out else ""
-        ev = line.split(" E ")[-1].split(",") if " E " in line else []
+        ev = line.split(" E ")[-1].split(" F ")[0].split(",") if " E " in line else []
         mnum = simworld.market_num(mb.market_id)
         market = run.framework.markets.markets.get(mb.market_id)
         if mb.status == "CLOSED":
